@@ -221,6 +221,15 @@ func edgeScalars() []*big.Int {
 		new(big.Int).Mod(two256, r), new(big.Int).Mod(new(big.Int).Mul(two256, two256), r),
 		lambda, new(big.Int).Add(lambda, bigOne), new(big.Int).Sub(lambda, bigOne), new(big.Int).Sub(r, lambda),
 	}
+	// scalars whose MONTGOMERY representation is a small integer k (value k * 2^-256 mod r): code that inspects raw limbs sees "small"
+	for _, k := range []int64{1, 2, 127, 128, 129, 255, 256, 32767, 32768, 32769, 65535, 65536} {
+		out = append(out, new(big.Int).Mod(new(big.Int).Mul(big.NewInt(k), rInvFr), r))
+	}
+	out = append(out, new(big.Int).Mod(new(big.Int).Mul(new(big.Int).Sub(new(big.Int).Lsh(bigOne, 64), bigOne), rInvFr), r))
+	// limb-structured values: a full limb of ones with a carry below, a zero limb above a carrying limb
+	for _, h := range []string{"ffffffffffffffff", "c000000000000000", "ffffffffffffffffffffffffffffffff", "1ffffffffffffffff8100000000000000", "10000000000000001ffffffffffffffff8100000000000000", "8100000000000000"} {
+		out = append(out, mustBig(h, 16))
+	}
 	for _, k := range []uint{8, 15, 16, 31, 32, 63, 64, 65, 127, 128, 129, 191, 192, 193, 251, 252} {
 		v := new(big.Int).Lsh(bigOne, k)
 		out = append(out, new(big.Int).Mod(v, r), new(big.Int).Mod(new(big.Int).Sub(v, bigOne), r), new(big.Int).Mod(new(big.Int).Add(v, bigOne), r))
